@@ -3771,6 +3771,12 @@ fn write_residuals<W: BitWrite>(
                 return None;
             }
 
+            // the most negative residual is not allowed in a stream
+            // and has no negation to fold into an unsigned value
+            if partition.contains(&i32::MIN) {
+                return None;
+            }
+
             let partition_sum = partition
                 .iter()
                 .map(|i| u64::from(i.unsigned_abs()))
